@@ -89,7 +89,7 @@ def fixed_inputs():
            "SYMBOLSET", "SYMBOLSET END", "SYMBOLSET SYMBOL END", "SYMBOLSET MAP END END", "MAP SYMBOLSET END END", "SYMBOLSET END MAP END",
            "INCLUDE", "INCLUDE ", "include", "INCLUDE\n", "  INCLUDE  # c", "INCLUDE ''", 'INCLUDE ""', "INCLUDE '", "INCLUDE \"", "INCLUDE #", "INCLUDE 'a' 'b'",
            "INCLUDE a b c", "INCLUDE .", "INCLUDE ./", "INCLUDE 'missing.map'", "MAP\nINCLUDE\nEND", "MAP\nINCLUDE missing.map\nEND", "MAP INCLUDE 'x' END",
-           "INCLUDEX", "includes 'x'", "MAP\n  include_me 'x'\nEND", "LAYER METADATA\ninclude_items 'all'\nEND END", "\ufeffMAP END", "MAP\x00END", "MAP\x0bEND",
+           "INCLUDE a\x00b", "MAP\nINCLUDE 'x\x00.map'\nEND", "INCLUDE " + "d/" * 3000 + "x.map", "INCLUDE \x00", "INCLUDEX", "includes 'x'", "MAP\n  include_me 'x'\nEND", "LAYER METADATA\ninclude_items 'all'\nEND END", "\ufeffMAP END", "MAP\x00END", "MAP\x0bEND",
            "MAP NAME \"a\"\"b\" END", "MAP NAME 'a''b' END", "MAP NAME \"a\\\" END", "MAP NAME \"a\"i END", "MAP NAME x-y END", "MAP NAME 1x END", "MAP NAME x:y END",
            "CLASS STYLE SYMBOL END END", "CLASS SYMBOL END", "STYLE SYMBOL SYMBOL END END", "LAYER NAME GRID END", "LAYER GRID NAME GRID END END",
            "QUERYMAP STYLE END", "QUERYMAP STYLE NORMAL NORMAL END", "OUTPUTFORMAT IMAGEMODE FEATURE END", "OUTPUTFORMAT IMAGEMODE FEATURE FEATURE END END",
